@@ -133,8 +133,8 @@ Definition req_eff (e : effect) (a : astate) : bool :=
   | ESetLatest => L && d_lat a && f_latdone a
   | ESetCur => negb (cur_debts a)
   | ESetCompleted => L && f_curpend a && negb (cur_debts a)
-  | ESetFinalLast => f_own a && f_hasmeas a && (d_best a || inf_is (f_inf a) true)
-  | ESetFinalZero => f_own a && (d_best a || inf_is (f_inf a) true)
+  | ESetFinalLast => f_own a && f_hasmeas a && (d_best a || inf_is (f_inf a) true) && negb (f_better a)
+  | ESetFinalZero => f_own a && (d_best a || inf_is (f_inf a) true) && negb (f_better a)
   | ESetInf => f_own a && d_fb a && d_best a && inf_is (f_inf a) false && negb (d_inf a)
   | EIncNF => f_own a && d_fb a && inf_is (f_inf a) false
   | EIncComp => d_cc a
@@ -205,7 +205,7 @@ Definition post_br (cn : cond) (v : bool) (a : astate) : astate :=
       set_study_facts (f_idfresh a) (f_room a) (f_gotlat a) (f_latdone a) L (f_bestfresh a) (f_better a) a
   | CNoMeas, false => set_cur_facts true (f_own a) (f_inf a) (f_final a) a
   | CBestBetter, false => set_debts (d_reg a) (d_ip a) (d_lat a) (d_cc a) (d_dp a) (d_inf a) (d_fb a) false a
-  | CBestBetter, true => set_study_facts (f_idfresh a) (f_room a) (f_gotlat a) (f_latdone a) (f_curpend a) (f_bestfresh a) (f_bestfresh a && L) a
+  | CBestBetter, true => set_study_facts (f_idfresh a) (f_room a) (f_gotlat a) (f_latdone a) (f_curpend a) (f_bestfresh a) (f_bestfresh a && L && f_own a) a
   | _, _ => a
   end.
 
